@@ -28,7 +28,17 @@ static void order_case(ctx_t *c, long idx, rng_t *r) {
     int sym = rng_chance(r, 0.35);
     long wsym = ctx_argl(c, "sym", -1); if (wsym >= 0) sym = (int)wsym;
     int nonsing = rng_int(r, 0, 3); if (nonsing == 1 && m != n) nonsing = 0;
-    gmat_t g; gmat_gen(r, m, n, PAT_ANY, VAL_GENERIC, nonsing, 0, &g);
+    /* a share of large sparse cases: only there do COLAMD's dense-row/column removal and MMD's mass
+     * elimination / supervariable paths run (the cubic definition is not evaluated above n = 40) */
+    int large = rng_chance(r, c->thorough ? 0.05 : 0.012) || ctx_argl(c, "large", 0);
+    int pat = PAT_ANY;
+    if (large) {
+        static const int sp[5] = { PAT_ARROW, PAT_BAND, PAT_TRIDIAG, PAT_BLOCK, PAT_ARROW };
+        n = rng_int(r, 60, c->thorough ? 300 : 120); m = (meth == MMD_AT_PLUS_A || rng_chance(r, 0.7)) ? n : rng_int(r, 60, c->thorough ? 300 : 120);
+        pat = sp[rng_int(r, 0, 4)];
+        if (nonsing == 1 && m != n) nonsing = 0;
+    }
+    gmat_t g; gmat_gen(r, m, n, pat, VAL_GENERIC, nonsing, 0, &g);
     /* row indices inside a column need not be sorted: shuffle some columns */
     int shuffled = rng_chance(r, 0.3);
     if (shuffled) for (int j = 0; j < n; j++) {
@@ -69,7 +79,7 @@ static void order_case(ctx_t *c, long idx, rng_t *r) {
     out_p(c->out, "pat", "%s", g.pat); out_p(c->out, "method", "%s", meth_name(meth));
     out_p(c->out, "sym", "%d", sym); out_p(c->out, "shuffled", "%d", shuffled);
     out_p(c->out, "fact", "%s", fact_same ? "SamePattern" : "DOFACT");
-    out_p(c->out, "relax", "%d", relax);
+    out_p(c->out, "relax", "%d", relax); out_p(c->out, "large", "%d", large);
     out_p(c->out, "idxbytes", "%d", (int)sizeof(int_t));
     { int_t dims[2] = { m, n }; out_intts(c->out, "A.dims", 2, dims); }
     out_intts(c->out, "A.colptr", n + 1, g.colptr); out_intts(c->out, "A.rowind", nnz, g.rowind);
